@@ -111,6 +111,22 @@ def check(ctx):
     ctx.decide(ok, "R-TABLE/pending-keys", f"{wk.qual}.remove_pending_answer", wk.where(rem),
                "removal uses the Hop-by-Hop of the waiter's message", f"removal pops {[ast.unparse(c) for c in pops]}", key="remove")
 
+    # the registry belongs to one worker (one connection): Hop-by-Hop identifiers are unique per connection only
+    wini = ctx.need(wk.methods.get("__init__"), "Worker.__init__")
+    inst = [x for x in walk_no_nested(wini) if isinstance(x, ast.Assign) and any(ast.unparse(t) == "self.pending_answers" for t in x.targets)]
+    cfgw = make_cfg(repo, wini)
+    ok = len(inst) == 1 and ast.unparse(inst[0].value) in ("dict()", "{}") and \
+        must_pass(cfgw, lambda n: n.ast is inst[0]) and "pending_answers" not in wk.attrs
+    ctx.decide(ok, "R-WHO/registry-per-worker", f"{wk.qual}.pending_answers", wk.where(wini),
+               "each Worker creates its own empty pending_answers registry",
+               "pending_answers is not a fresh per-instance dict created in Worker.__init__ (class-level or shared registry): two "
+               "workers (connections) whose requests carry the same Hop-by-Hop collide - one caller gets the other's answer and "
+               "the other never wakes", key="per_worker")
+    writers = sorted({fi.qual for fi in repo.funcs.values() for x in walk_no_nested(fi.node)
+                      if isinstance(x, ast.Attribute) and x.attr == "pending_answers" and fi.cls is not wk})
+    ctx.decide(not writers, "R-WHO/registry-per-worker", f"{wk.qual}.pending_answers", wk.where(),
+               "only Worker methods touch the registry", f"pending_answers is accessed from {writers}", key="who_touches", nontrivial=False)
+
     ctx.clause = "2-update-notify-remove-order"
     # dispatch: guarded by is_pending_answer, update_msg(msg) before remove_pending_answer (which notifies then pops)
     found = False
